@@ -33,6 +33,24 @@ static int intcmp(const void *xa, const void *xb);
  *  Richard Hanson. Prentice-Hall, 1974.
  */
 
+#ifdef PHOTOSPLINE_VERIF
+/*
+ * Verification hook (conformance checking against a model of the algorithm):
+ * reports the state of nnls_lawson_hanson after a coefficient was freed
+ * ("freed"), after a sub-problem solution was accepted ("accept") or clipped
+ * ("clip"), and on return ("end"). The function is provided by the test
+ * harness; nothing is called without it.
+ */
+void photospline_verif_lh(const char *phase, long index, double alpha,
+    const long *P, unsigned nP, const long *Z, unsigned nZ,
+    const double *x, long nvar) __attribute__((weak));
+#define VERIF_LH(phase, index, alpha) do { if (photospline_verif_lh) \
+	photospline_verif_lh(phase, index, alpha, P, nP, Z, nZ, \
+	    (const double*)(x->x), (long)A->ncol); } while (0)
+#else
+#define VERIF_LH(phase, index, alpha) ((void)0)
+#endif
+
 cholmod_dense *
 nnls_lawson_hanson(cholmod_sparse *A, cholmod_dense *y, double tolerance,
     int min_iterations, int max_iterations, unsigned int npos, int normaleq,
@@ -131,6 +149,7 @@ nnls_lawson_hanson(cholmod_sparse *A, cholmod_dense *y, double tolerance,
                 nZ--;
                 for (i = t; i < nZ; i++)
                         Z[i] = Z[i+1];
+                VERIF_LH("freed", last_freed, 0.0);
 
                 /*
                  * Steps 6-11: Move coefficients from the passive to the
@@ -175,6 +194,7 @@ nnls_lawson_hanson(cholmod_sparse *A, cholmod_dense *y, double tolerance,
                                         ((double *)(x->x))[P[i]] =
                                             ((double *)(p->x))[i];
                                 cholmod_l_free_dense(&p, c);
+                                VERIF_LH("accept", -1, 1.0);
                                 break; /* Break loop to step 2 */
                         }
 
@@ -242,6 +262,8 @@ nnls_lawson_hanson(cholmod_sparse *A, cholmod_dense *y, double tolerance,
                                 i--;
                         }
 
+                        VERIF_LH("clip", qmax, alpha);
+
                         /* If alpha = 0, we've reached equilibrium */
                         if (alpha == 0)
                                 break;
@@ -253,6 +275,7 @@ nnls_lawson_hanson(cholmod_sparse *A, cholmod_dense *y, double tolerance,
         }
 
         /* Step 12: return */
+        VERIF_LH("end", -1, 0.0);
         cholmod_l_free_dense(&w, c);
         return (x);
 }
